@@ -170,6 +170,38 @@ func arEnd(raw []byte) string {
 	return "no end"
 }
 
+// sparseControlTar: one 512-byte old-GNU header with typeflag 'S', name ./control, no stored data,
+// one sparse-map entry {offset: realsize, length 0} and real size = realsize, followed by the
+// end-of-archive blocks. archive/tar presents the entry as realsize NUL bytes that exist nowhere.
+func sparseControlTar(realsize int64) []byte {
+	hdr := make([]byte, 512)
+	copy(hdr[0:], "./control")
+	copy(hdr[100:], "0000644\x00")
+	copy(hdr[108:], "0000000\x00")
+	copy(hdr[116:], "0000000\x00")
+	copy(hdr[124:], "00000000000\x00")
+	copy(hdr[136:], "00000000000\x00")
+	hdr[156] = 'S'
+	copy(hdr[257:], "ustar  \x00")
+	b256 := func(dst []byte, v int64) {
+		for i := len(dst) - 1; i >= 0; i-- {
+			dst[i] = byte(v)
+			v >>= 8
+		}
+		dst[0] |= 0x80
+	}
+	b256(hdr[386:398], realsize)
+	copy(hdr[398:410], "00000000000\x00")
+	b256(hdr[483:495], realsize)
+	copy(hdr[148:156], "        ")
+	sum := 0
+	for _, c := range hdr {
+		sum += int(c)
+	}
+	copy(hdr[148:156], fmt.Sprintf("%06o\x00 ", sum))
+	return append(hdr, make([]byte, 1024)...)
+}
+
 func checkBytesCase(c BytesCase, r *Recorder) error {
 	members, err := checkArBytes(c.Raw, c.Eager)
 	if err == nil {
@@ -246,7 +278,7 @@ func genCorruptArchive(t *rapid.T) BytesCase {
 			ms = append(ms, genArMember(t, "m"))
 		}
 	}
-	op := rapid.SampledFrom([]string{"column", "column", "column", "columns", "longnames", "magic", "truncate", "duplicate", "reorder", "decoy", "padding", "globalmagic", "none"}).Draw(t, "op")
+	op := rapid.SampledFrom([]string{"column", "column", "column", "columns", "longnames", "tarlevel", "magic", "truncate", "duplicate", "reorder", "decoy", "padding", "globalmagic", "none"}).Draw(t, "op")
 	note := op
 	switch op {
 	case "duplicate":
@@ -271,6 +303,34 @@ func genCorruptArchive(t *rapid.T) BytesCase {
 			decoy.Name = base + ".tar"
 		}
 		ms = append(ms[:j], append([]ArMember{decoy}, ms[j:]...)...)
+	}
+	if op == "tarlevel" {
+		// the hostile part sits one level down: the control member is a tar whose './control' entry
+		// is a sparse file (old GNU 'S' header: a few bytes stored, a huge logical size the tar reader
+		// fills with NULs it makes up), a directory, a symlink, or declares more data than there is
+		kind := rapid.SampledFrom([]string{"sparse-2^20", "sparse-2^40", "sparse-2^62", "dir", "symlink", "short"}).Draw(t, "tarkind")
+		note = "tarlevel:" + kind
+		var ctl []byte
+		switch kind {
+		case "dir", "symlink":
+			tf := TarFile{Name: "./control", Type: kind, Link: "/etc/passwd"}
+			ctl, _ = buildTar([]TarFile{{Name: "./md5sums", Type: "reg", Content: []byte("x\n")}, tf})
+		case "short":
+			ctl, _ = buildTar([]TarFile{{Name: "./control", Type: "reg", Content: []byte("Package: x\nVersion: 1\nArchitecture: all\nMaintainer: A <a@b.c>\nDescription: d\n")}})
+			if len(ctl) > 600 {
+				ctl = ctl[:520+rapid.IntRange(0, 60).Draw(t, "shortcut")]
+			}
+		default:
+			ctl = sparseControlTar(map[string]int64{"sparse-2^20": 1 << 20, "sparse-2^40": 1 << 40, "sparse-2^62": 1 << 62}[kind])
+		}
+		for i := range ms {
+			if strings.HasPrefix(ms[i].Name, "control.") {
+				ms[i].Name, ms[i].Data = "control.tar", ctl
+			}
+		}
+		if !isDeb {
+			ms = append(ms, ArMember{Name: "control.tar", Mode: "100644", Data: ctl})
+		}
 	}
 	raw := renderAr(ms)
 	offs := memberOffsets(ms)
@@ -345,7 +405,7 @@ func genCorruptArchive(t *rapid.T) BytesCase {
 
 var specC15Corrupt = Register(&Spec[BytesCase]{
 	Prop: "C15", Name: "corrupt",
-	Rule: "structured corruption of valid artefacts (C13 archives and C14 packages with stored/gzip members): one header column (name, mtime, uid, gid, mode, size, magic) of one member overwritten with negative, '+'-signed, huge, blank, non-numeric, NUL, hex or overflowing text; 2..4 numeric columns of one header made non-numeric at once; a member renamed '//' and later ones '/<offset>' (GNU long-name table and references); one or both header magic bytes changed; truncation at a generated offset; a member duplicated (same or changed content), members reordered, a decoy control.*/data.* member with another extension (optionally a tar with 'Package: evil') inserted; a padding byte added or removed; a global magic byte flipped. Oracle: no panic; the Next() loop ends in io.EOF or an error within len/60+2 steps; every returned member sits behind a header ending 0x60 0x0A, has Size >= 0 and a reader delivering exactly Size bytes; deb.Load stays within a read budget and returns within 20 s; seven iterations / loads of the same bytes give the same outcome (the same error text, or the same extensions, control identity and member index). Non-trivial: >= 1 member returned or a first header parsed; distinct by bytes.",
+	Rule: "structured corruption of valid artefacts (C13 archives and C14 packages with stored/gzip members): one header column (name, mtime, uid, gid, mode, size, magic) of one member overwritten with negative, '+'-signed, huge, blank, non-numeric, NUL, hex or overflowing text; 2..4 numeric columns of one header made non-numeric at once; a member renamed '//' and later ones '/<offset>' (GNU long-name table and references); the control member replaced by a stored tar whose './control' entry is a GNU sparse file of 2^20 / 2^40 / 2^62 made-up bytes, a directory, a symlink, or cut short; one or both header magic bytes changed; truncation at a generated offset; a member duplicated (same or changed content), members reordered, a decoy control.*/data.* member with another extension (optionally a tar with 'Package: evil') inserted; a padding byte added or removed; a global magic byte flipped. Oracle: no panic; the Next() loop ends in io.EOF or an error within len/60+2 steps; every returned member sits behind a header ending 0x60 0x0A, has Size >= 0 and a reader delivering exactly Size bytes; deb.Load stays within a read budget and returns within 20 s; seven iterations / loads of the same bytes give the same outcome (the same error text, or the same extensions, control identity and member index). Non-trivial: >= 1 member returned or a first header parsed; distinct by bytes.",
 	Check: checkBytesCase,
 })
 
